@@ -1400,4 +1400,22 @@ theorem prepList_good (v : Val) : ∀ (es : List Expr) (neg c : Bool) (h : List 
           exact and3_swap _ _ _
 end
 
+/-! ## `valid` is exactly its two clauses -/
+mutual
+theorem valid_split : ∀ (e : Expr), valid e = (listsNonEmpty e && literalsInRange e)
+  | .cmp l op r => by simp [valid, listsNonEmpty, literalsInRange]
+  | .isNull l b => by simp [valid, listsNonEmpty, literalsInRange]
+  | .kinds ref ks a => by simp [valid, listsNonEmpty, literalsInRange]
+  | .neg c => by simp [valid, listsNonEmpty, literalsInRange, valid_split c]
+  | .paren c => by simp [valid, listsNonEmpty, literalsInRange, valid_split c]
+  | .join op es => by
+    simp only [valid, listsNonEmpty, literalsInRange, valids_split es]
+    cases es.isEmpty <;> simp [Bool.and_assoc]
+theorem valids_split : ∀ (es : List Expr), valids es = (listsNonEmptyAll es && literalsInRangeAll es)
+  | [] => by simp [valids, listsNonEmptyAll, literalsInRangeAll]
+  | e :: es => by
+    simp only [valids, listsNonEmptyAll, literalsInRangeAll, valid_split e, valids_split es]
+    cases listsNonEmpty e <;> cases literalsInRange e <;> cases listsNonEmptyAll es <;> cases literalsInRangeAll es <;> rfl
+end
+
 end Dawgs.C10
